@@ -37,7 +37,8 @@ Result.ok          all ranks returned normally
 `comm.sub(k)` (coop mode only) returns a communicator over ranks 0..k-1 (None on the others): lets one run exercise
 several task counts.
 FakeComm implements what NIFTy uses: Get_size, Get_rank, send, recv, Send, Recv, bcast, Bcast, allgather,
-allreduce (SUM = Python `+`, folded in rank order), Barrier, gather, and `mark(label)`.
+allreduce (SUM = Python `+`, reduced along a tree whose shape and rank order change from call to call — the same on
+all ranks —, as an MPI library may do), Barrier, gather, and `mark(label)`.
 Inside the children a stub module `mpi4py.MPI` is installed (`Intracomm = FakeComm`, `COMM_WORLD = comm`) so that
 `isinstance(comm, mpi4py.MPI.Intracomm)` checks in the library pass.
 """
@@ -127,10 +128,22 @@ class FakeComm:
         if op is not None:
             raise FakeMPIError("only the default SUM is supported")
         vals = [pickle.loads(b) for b in self._call("allreduce", None, pickle.dumps(obj))]
-        res = vals[0]
-        for v in vals[1:]:
-            res = res + v
-        return res
+        # MPI libraries reduce along a tree of their own choosing: the order of a non-commutative `+` (lists!) is not
+        # rank order in general.  Every call uses another rank order and tree shape — the same one on all ranks (the
+        # counter advances identically everywhere because collectives are called in the same sequence).
+        k = self.__dict__.get("_nreduce", 0)
+        self.__dict__["_nreduce"] = k + 1
+        n = len(vals)
+        order = [(i + k) % n for i in range(n)]
+        if k % 2:
+            order.reverse()
+
+        def tree(idx):
+            if len(idx) == 1:
+                return vals[idx[0]]
+            cut = 1 + (k % (len(idx) - 1)) if len(idx) > 2 else 1
+            return tree(idx[:cut]) + tree(idx[cut:])
+        return tree(order)
 
     def bcast(self, obj=None, root=0):
         pl = pickle.dumps(obj) if self._rank == root else None
